@@ -452,6 +452,7 @@ def run(ctx: Ctx):
         ctx.rule("R01.1", "field carry of metrics / score in the metric-carrying adapters", 20)
         ctx.rule("R01.2", "inverse field maps of metrics / score", 6)
         ctx.rule("R01.3", "elision / filter agreement of metrics / score", 4)
+        ctx.rule("R01.8", "score stored in a document field of the same declared type", 3)
         c1 = C01(ctx)
         for leaf in c1.ao.leaves.values():
             if leaf.name in ("MatchAdapter", "ClipEvaluationAdapter"):
